@@ -100,11 +100,13 @@ class Scaler(Transformer):
 
         # Scaling parameters are computed along sample dimensions
         if params["with_center"]:
-            self.mean_: DataVar = X.mean(self.sample_dims)
+            # Fully missing features get a neutral mean so that they stay visible to the
+            # NaN checks of the Sanitizer when other data is transformed
+            self.mean_: DataVar = X.mean(self.sample_dims).fillna(0)
 
         if params["with_std"]:
-            self.std_: DataVar = X.std(self.sample_dims).clip(
-                min=np.finfo(np.float32).eps
+            self.std_: DataVar = (
+                X.std(self.sample_dims).clip(min=np.finfo(np.float32).eps).fillna(1)
             )
 
         if params["with_coslat"]:
